@@ -112,12 +112,13 @@ CHECKS = {
         ],
     },
     "C11": {
-        "pkg": "c11", "level": "exploration", "needs": ["tool:emit"],
-        "rule": "stage parse: parameter strings are built token by token in the documented syntax (bare word / \"quoted value\" / NAME=value / NAME=\"quoted value\"; values over letters, digits, punctuation, spaces, tabs, '=', escaped quotes, non-ASCII; no '$', backtick or backslash — substitution / undocumented escapes), as file defaults or as start override, so the expected $1..$n / $NAME values are known by construction; the real evaluating loader (dag.Load) must produce exactly those in DAG.Params and in the exported environment, and the recorded string (model.Params) re-loaded as retry/restart do must yield the same again (round trip). stage proc: real processes under the real agent in-process: a producer prints a generated payload (sizes 0,1,2,17,100,4095..4097,65535..65537,100000, random; units with spaces, newlines, quotes, '=', '$', backslashes, backticks, UTF-8; leading/trailing whitespace; optional stderr noise) captured with output:, and `env -0` consumers with stdout: probe files at every position (non-adjacent descendant, unrelated step ordered after the producer by a marker file, onFailure/onSuccess/onExit handlers, the re-executed part of a retry, all steps of a restart) show the exact environment each child saw; every occurrence of $n, $NAME and the output variable must equal the expected value (TrimSpace(payload) for the output). Non-trivial: a value with space/quote/'=' or a payload on a size boundary or with newline/quote/'='/'$'. Distinct: hash of the case.",
+        "pkg": "c11", "level": "exploration", "needs": ["tool:emit", "cli"],
+        "rule": "stage parse: parameter strings are built token by token in the documented syntax (bare word / \"quoted value\" / NAME=value / NAME=\"quoted value\"; values over letters, digits, punctuation, spaces, tabs, '=', escaped quotes, non-ASCII; no '$', backtick or backslash — substitution / undocumented escapes), as file defaults or as start override, so the expected $1..$n / $NAME values are known by construction; the real evaluating loader (dag.Load) must produce exactly those in DAG.Params and in the exported environment, and the recorded string (model.Params) re-loaded as retry/restart do must yield the same again (round trip). stage proc: real processes under the real agent in-process: a producer prints a generated payload (sizes 0,1,2,17,100,4095..4097,65535..65537,100000, random; units with spaces, newlines, quotes, '=', '$', backslashes, backticks, UTF-8; leading/trailing whitespace; optional stderr noise) captured with output:, and `env -0` consumers with stdout: probe files at every position (non-adjacent descendant, unrelated step ordered after the producer by a marker file, onFailure/onSuccess/onExit handlers, the re-executed part of a retry, all steps of a restart) show the exact environment each child saw; every occurrence of $n, $NAME and the output variable must equal the expected value (TrimSpace(payload) for the output). stage cli: the real binary: `blackdagger start -p <string> file` (argv passed verbatim, no shell), then `blackdagger retry --req=<id>` and `blackdagger restart`, same `env -0` probes; strings that begin AND end with a quote are steered away (the CLI strips one surrounding pair, pinned by cmd/start_test.go). Non-trivial: a value with space/quote/'=' or a payload on a size boundary or with newline/quote/'='/'$'. Distinct: hash of the case.",
         "assumptions": ["parameter values exclude '$', backtick and backslash (substitution is documented there; only \\\" is a documented escape)", "captured outputs are valid UTF-8 without NUL and fit one environment string (<= 100000 bytes)", "$n of a named parameter holds NAME=value (pinned by builder_test ParamsWithComplexValues)", "the CLI's own quote stripping (cmd/start.go removeQuotes) is outside the in-process legs"],
         "stages": [
             {"name": "parse", "run": "TestParse", "kind": "rapid", "shards": {"quick": 16, "thorough": 16}, "checks": {"quick": 1500, "thorough": 30000}, "timeout": {"quick": 600, "thorough": 3600}},
             sim_stage(5, 60, shrinktime="20s"),
+            {"name": "cli", "run": "TestCLI", "kind": "rapid", "shards": {"quick": 16, "thorough": 16}, "checks": {"quick": 3, "thorough": 40}, "timeout": {"quick": 600, "thorough": 3600}, "shrinktime": "20s"},
         ],
     },
 }
